@@ -11,6 +11,9 @@ pub static THOROUGH: std::sync::atomic::AtomicBool = std::sync::atomic::AtomicBo
 /// sample multiplier: the thorough tier draws k times as many seed-driven cases
 pub fn mult(quick: usize, thorough: usize) -> usize { if THOROUGH.load(std::sync::atomic::Ordering::Relaxed) { thorough } else { quick } }
 
+/// seed-derived rotation for checks that pick a few positions out of many
+pub static ROT: std::sync::atomic::AtomicUsize = std::sync::atomic::AtomicUsize::new(0);
+
 pub struct Out {
   pub evaluations: u64,
   pub distinct: u64,
@@ -42,6 +45,7 @@ fn main() {
   if a.len() < 6 { eprintln!("usage: verif_leaf <check> <lo> <hi> <seed> <tier>"); std::process::exit(2); }
   let (check, lo, hi, seed, tier) = (a[1].as_str(), a[2].parse::<i64>().unwrap(), a[3].parse::<i64>().unwrap(), a[4].parse::<u64>().unwrap(), a[5].as_str());
   if std::env::var("VERIF_LEAF_TRACE").is_err() { panic::set_hook(Box::new(|_| {})); }
+  ROT.store(seed as usize % 31, std::sync::atomic::Ordering::Relaxed);
   THOROUGH.store(tier == "thorough", std::sync::atomic::Ordering::Relaxed);
   let mut out = Out { evaluations: 0, distinct: 0, failures: vec![], samples: vec![] };
   let known = checks::dispatch(check, lo, hi, seed, tier == "thorough", &mut out) || checks2::dispatch2(check, lo, hi, seed, tier == "thorough", &mut out);
